@@ -230,6 +230,26 @@ def make_cases(pid: str, impl, tier: str, seed: int):
     prof = PROFILES[pid]
     n_random = {'quick': 450, 'thorough': 6000}[tier]
     histories = []
+    if pid == 'C11':
+        # an attacker added with entry points only (no reached steps given), then attackers attached from a model: the
+        # attached attackers reach exactly what their own entry points name
+        for _ in range(40 if tier == 'quick' else 400):
+            g = GW.Gen(impl, rng, {k: 0 for k in W_BASE})
+            g.build(rng.randint(3, 6), rng.randint(0, 5), 0)
+            ids = list(g.w.graph._id_to_node.keys())
+            for _k in range(rng.randint(1, 2)):
+                g.do(('new_att', rng.choice(['alice', 'bob'])))
+                g.do(('add_att', len(g.w.atts) - 1, None, [], rng.sample(ids, min(len(ids), rng.randint(1, 2)))))
+            names = list(g.w.graph._full_name_to_node.keys())
+            infos = []
+            for _k in range(rng.randint(1, 2)):
+                eps = []
+                for fn in rng.sample(names, min(len(names), rng.randint(0, 2))):
+                    an, _, stp = fn.rpartition(':')
+                    eps.append((an, [stp]))
+                infos.append((rng.choice(['mallory', 'trent']), eps))
+            g.do(('attach', infos))
+            histories.append(('entry-then-attach', g.ops))
     # corpus first
     for h in load_corpus(pid):
         histories.append(('corpus', h))
@@ -419,6 +439,9 @@ def run_with_predicates(pid, impl, ops, per_case_timeout=10, keep_world=False):
                 if k == 'attach' and oc == 0:
                     for m in attach_violations(w, op[1], pre[0], pre[1]):
                         viol.append((i, m))
+                if k == 'attach' and oc != 0 and all(name for name, _ in op[1]):
+                    # (a model attacker without a name is refused by design)
+                    viol.append((i, 'attach_attackers raised instead of creating one attacker per model attacker'))
             elif pid == 'C12' and oc == 0 and k.startswith('q_'):
                 if w.obs() != pre:
                     viol.append((i, f'{k} changed the graph'))
